@@ -27,7 +27,7 @@ type vxC16Case struct {
 	Parallel bool  `json:"parallel"`
 	Delays   []int `json:"delaysMs"` // start delay of fan i relative to the previous start (-1 = when the previous fan finished its analysis)
 	Settle   []int `json:"settle"`   // per fan: 0 steady at once, 1 settles after 15 s, 2 after 40 s
-	Kinds    []int `json:"kinds"`    // per fan: 0 nothing stored, 1 nothing stored + pwmMap configured (no sweep, measurement only), 2 only the RPM curve stored (sweep only), 3 file fan (sweep only), 4 everything stored (needs no analysis: a bystander that must not disturb the queue)
+	Kinds    []int `json:"kinds"`    // per fan: 0 nothing stored, 1 nothing stored + pwmMap configured (no sweep, measurement only), 2 only the RPM curve stored (sweep only), 3 file fan (sweep only), 4 everything stored (needs no analysis: a bystander that must not disturb the queue), 5 hwmon fan whose PWM cannot be read back (no sweep, measurement only)
 	// RespDelay: fanResponseDelay in seconds (-1 = the default 2); 0 makes a whole analysis take ~13 s instead of ~9 min
 	RespDelay int `json:"respDelay"`
 	// CancelAtMs > 0: the controllers' context is cancelled at this time (shutdown request, or another actor of the daemon
@@ -85,6 +85,7 @@ func vxC16Exec(t *testing.T, c vxC16Case) (ivs []vxIv, fail [2]string) {
 		}
 		for i := 0; i < k; i++ {
 			cfg := vxRunCfg{Kind: "hwmon", OrigMode: 2, OrigPwm: 120, Scenario: "signal"}
+			unreadable := false
 			if i < len(c.Kinds) {
 				switch c.Kinds[i] {
 				case 1:
@@ -95,6 +96,8 @@ func vxC16Exec(t *testing.T, c vxC16Case) (ivs []vxIv, fail [2]string) {
 					cfg.Kind = "file"
 				case 4:
 					cfg.Stored = true
+				case 5:
+					unreadable = true
 				}
 			}
 			w := vxRunBuild(cfg, fmt.Sprintf("fan%d", i), fs, fmt.Sprintf("hwmon%d", i), db, false)
@@ -121,9 +124,16 @@ func vxC16Exec(t *testing.T, c vxC16Case) (ivs []vxIv, fail [2]string) {
 			prevIntercept := fs.Intercept
 			fs.Intercept = func(kind, path string, value int) *env.Result {
 				if prevIntercept != nil {
-					prevIntercept(kind, path, value)
+					if r := prevIntercept(kind, path, value); r != nil {
+						return r
+					}
 				}
 				if filepath.Dir(path) == filepath.Dir(wi.dev.Pwm) {
+					if unreadable && kind == "read" && path == wi.dev.Pwm {
+						// a fan whose PWM value cannot be read back (write-only pwmN): no PWM sensor feature, default PWM map,
+						// but its RPM curve is still measured
+						return &env.Result{Val: -1, Err: env.ErrIO}
+					}
 					now := time.Since(t0)
 					if wi.curve.Evals == 0 {
 						if kind != "read" && firstWrite[i] < 0 {
@@ -341,8 +351,8 @@ func TestVX_C16(t *testing.T) {
 		if allSteady(settle) || mc.Thorough() {
 			n := len(settle)
 			if n == 2 {
-				for a := 0; a < 4; a++ {
-					for b := 0; b < 4; b++ {
+				for _, a := range []int{0, 1, 2, 3, 5} {
+					for _, b := range []int{0, 1, 2, 3, 5} {
 						if a+b > 0 {
 							cases = append(cases, vxC16Case{Parallel: false, Delays: delays, Settle: settle, Kinds: []int{a, b}, RespDelay: -1})
 						}
@@ -356,6 +366,11 @@ func TestVX_C16(t *testing.T) {
 					}
 					cases = append(cases, vxC16Case{Parallel: false, Delays: delays, Settle: settle, Kinds: kinds, RespDelay: -1})
 				}
+				kinds := make([]int, n)
+				for i := range kinds {
+					kinds[i] = []int{5, 0, 5, 2}[i%4]
+				}
+				cases = append(cases, vxC16Case{Parallel: false, Delays: delays, Settle: settle, Kinds: kinds, RespDelay: -1})
 			}
 		}
 	}
